@@ -103,7 +103,7 @@ class ParseAPI(object):
                 return None
         else:
             master_secret = pair[1].encode("utf8")  # type: ignore[assignment]
-        return self._network.keys.hd_seed(master_secret)
+        return self._network.keys.bip32_seed(master_secret)
 
     def bip32_prv(self, s: str) -> Any:
         """
